@@ -23,7 +23,7 @@ CHECK = "C20"
 RULE = (
     "label files: generated well-formed (5 dialect spellings), with missing "
     "values, token-damaged, with trailing binary after END, non-ASCII, and "
-    "every tests/data file, and 19 small labels around what one or another "
+    "every tests/data file, and 27 small labels around what one or another "
     "encoder refuses (in a shuffled order: the tools keep one instance per "
     "format for the life of the process); pvl_translate -of {PDS3,ODL,ISIS,PVL,JSON} "
     "(stdout, explicit outfile, stdin) and pvl_validate (one file, many "
@@ -258,7 +258,7 @@ def parse_many_report(out, n_files):
     return res
 
 
-def validate_case(rec, pvl, paths, fids, kinds):
+def validate_case(rec, pvl, paths, fids, kinds, force_flags=None):
     import pvl.pvl_validate as pv
     try:
         want = [expected_rows(pvl, p) for p in paths]
@@ -267,6 +267,8 @@ def validate_case(rec, pvl, paths, fids, kinds):
         return
     # the verbosity flags only add diagnostics on stderr: same report
     flags = ([], ["-v"], ["-vv"])[int(common.h64(("v", tuple(fids))), 16) % 3]
+    if force_flags is not None:
+        flags = force_flags
     rec.count("validate_flags[" + (" ".join(flags) or "none") + "]")
     got = run_tool(pv.main, flags + list(paths))
     if flags and got[0] == "ok" and got[1].startswith("pvl library version:"):
@@ -329,6 +331,16 @@ HAZARD_TEXTS = [
     "GROUP = g\n a = 1\n a = 2\nEND_GROUP\nEND\n",
     "OBJECT = o\n a = 1\nEND_OBJECT\nGROUP = g\n b = 2\nEND_GROUP\nEND\n",
     "a = 1\nEND\n",
+    # units that only some encoders take
+    "a = 5 <m^2>\nb = 5 <m**2>\nEND\n",
+    "a = 5 <%>\nEND\n",
+    "a = 2.5 <1/s>\nb = (1, 2 <s**-1>)\nEND\n",
+    "a = 5 <m**2.5>\nGROUP = g\n b = 1 <W*m**-2>\nEND_GROUP\nEND\n",
+    # ParseError (not LexerError) for the strict rows
+    "GROUP = g\n a = 1\n",
+    "a = (1, 2\n",
+    "a = 1\nname =\n",
+    "OBJECT = o\n a = 1\nEND_GROUP\nEND\n",
 ]
 
 
@@ -447,6 +459,10 @@ def shard(i, n, tier, seed, rec, hb):
             rec.count(f"files[{kind}]")
             translate_case(rec, pvl, path, fid, kind)
             validate_case(rec, pvl, [path], [fid], [kind])
+            if kind == "hazard":
+                # the small hazard labels with every verbosity flag
+                for fl in ([], ["-v"], ["-vv"], ["-v", "-v", "-v"]):
+                    validate_case(rec, pvl, [path], [fid], [kind], force_flags=fl)
             if k % 10 == 0 or tier == "thorough" and k % 3 == 0:
                 subprocess_sample(rec, pvl, path, fid)
         # several files per invocation
